@@ -1,4 +1,4 @@
 SPECIFICATION Spec
-CONSTANTS N = 2  E = 1  A = 1  I = 1  NL = {0, 1}  EL = {0}  SN = 2  SL = 3  RT = 3
+CONSTANTS N = 2  E = 1  A = 1  I = 1  NL = {0, 1}  EL = {0}  SN = 3  SL = 2  RT = 3
 INVARIANTS Laws
 CHECK_DEADLOCK FALSE
